@@ -28,6 +28,7 @@ import (
 type lterm struct {
 	v     ssa.Value
 	isLen bool
+	gen   int // 0: the value as it exists at the program point the facts were taken at; >0: recomputed later on a path
 }
 
 // lin is sum(co[t]*t) + c
@@ -105,7 +106,7 @@ func isIntType(t types.Type) bool {
 // linOf expresses an integer SSA value as a linear form over opaque terms.
 func linOf(v ssa.Value, depth int) lin {
 	if depth > 12 {
-		return linTerm(lterm{v, false})
+		return linTerm(lterm{v: v})
 	}
 	switch x := v.(type) {
 	case *ssa.Const:
@@ -145,13 +146,13 @@ func linOf(v ssa.Value, depth int) lin {
 			}
 		}
 	}
-	return linTerm(lterm{v, false})
+	return linTerm(lterm{v: v})
 }
 
 // lenOf expresses len(x) as a linear form.
 func lenOf(x ssa.Value, depth int) lin {
 	if depth > 12 {
-		return linTerm(lterm{x, true})
+		return linTerm(lterm{v: x, isLen: true})
 	}
 	switch s := x.(type) {
 	case *ssa.Const:
@@ -183,7 +184,7 @@ func lenOf(x ssa.Value, depth int) lin {
 	if k, ok := arrayLen(x.Type()); ok {
 		return linConst(k)
 	}
-	return linTerm(lterm{x, true})
+	return linTerm(lterm{v: x, isLen: true})
 }
 
 func isStringOrBytes(t types.Type) bool {
@@ -231,7 +232,26 @@ func (s *lsys) termFacts(t lterm) {
 		s.le(linConst(0), linTerm(t))
 		return
 	}
+	if t.gen != 0 {
+		return // a value recomputed later on a path: nothing is known about it
+	}
 	switch x := t.v.(type) {
+	case *ssa.BinOp:
+		// truncated division by a positive constant: q = n / k
+		if x.Op == token.QUO && isIntType(x.Type()) {
+			if k, ok := constIntVal(x.Y); ok && k > 0 {
+				q := linTerm(t)
+				n := linOf(x.X, 0)
+				kq := newLin().addScaled(q, big.NewRat(k, 1))
+				// always: |k*q - n| <= k-1
+				s.le(kq, n.plusConst(k-1))
+				s.le(n.plusConst(-(k - 1)), kq)
+				if nonNegForm(n) || s.provesNonNeg(n) {
+					// n >= 0: k*q <= n <= k*q + (k-1)
+					s.le(kq, n)
+				}
+			}
+		}
 	case *ssa.Call:
 		f := sCallee(x)
 		if f != nil && f.Pkg() != nil && indexFuncs[f.Pkg().Path()+"."+f.Name()] && len(x.Call.Args) == 2 {
@@ -313,6 +333,16 @@ func (s *lsys) condFacts(c ssa.Value, want bool) {
 		default:
 			return
 		}
+	}
+	if op == token.NEQ {
+		// x != 0 for a syntactically non-negative x (a length) means x >= 1
+		d := x.minus(y)
+		if nonNegForm(d) {
+			s.le(linConst(1), d)
+		} else if nonNegForm(y.minus(x)) {
+			s.le(linConst(1), y.minus(x))
+		}
+		return
 	}
 	switch op {
 	case token.LSS:
@@ -484,7 +514,7 @@ func infeasible(cons []lin) bool {
 }
 
 func termName(t lterm) string {
-	n := t.v.Name()
+	n := t.v.Name() + fmt.Sprint("#", t.gen)
 	if t.isLen {
 		return "len(" + n + ")"
 	}
@@ -562,4 +592,204 @@ func indexGoal(in ssa.Instruction, x, idx ssa.Value) []boundsIssue {
 		return []boundsIssue{{in, fmt.Sprintf("index expression not proven in bounds (%v)", bad)}}
 	}
 	return nil
+}
+
+// nonNegForm: the linear form is syntactically non-negative (a sum of len terms with non-negative
+// coefficients and a non-negative constant).
+func nonNegForm(l lin) bool {
+	if l.c.Sign() < 0 {
+		return false
+	}
+	for t, c := range l.co {
+		if !t.isLen || c.Sign() < 0 {
+			return false
+		}
+	}
+	return true
+}
+
+// pathEval evaluates integer values and slice lengths symbolically along one enumerated path, from the
+// instruction after `start` up to (not including) `stop`, in terms of the values that existed at `start`
+// (generation 0). Loop-carried phis take the value selected by the edge the path took; anything the path
+// recomputes that is not understood becomes a fresh unknown (generation 1), so facts about its earlier
+// instance are never applied to it.
+type pathEval struct {
+	ints map[ssa.Value]lin
+	lens map[ssa.Value]lin
+}
+
+func (pe *pathEval) intOf(v ssa.Value) lin {
+	if l, ok := pe.ints[v]; ok {
+		return l
+	}
+	if c, ok := v.(*ssa.Const); ok {
+		_ = c
+		return linOf(v, 0)
+	}
+	return linOf1(v, pe)
+}
+
+// linOf1: like linOf, but sub-terms are looked up in the path environment first.
+func linOf1(v ssa.Value, pe *pathEval) lin {
+	if l, ok := pe.ints[v]; ok {
+		return l
+	}
+	switch x := v.(type) {
+	case *ssa.BinOp:
+		if isIntType(x.Type()) {
+			switch x.Op {
+			case token.ADD:
+				return linOf1(x.X, pe).plus(linOf1(x.Y, pe))
+			case token.SUB:
+				return linOf1(x.X, pe).minus(linOf1(x.Y, pe))
+			case token.MUL:
+				if k, ok := constIntVal(x.Y); ok {
+					return newLin().addScaled(linOf1(x.X, pe), big.NewRat(k, 1))
+				}
+				if k, ok := constIntVal(x.X); ok {
+					return newLin().addScaled(linOf1(x.Y, pe), big.NewRat(k, 1))
+				}
+			}
+		}
+	case *ssa.Call:
+		if b, ok := x.Call.Value.(*ssa.Builtin); ok && b.Name() == "len" && len(x.Call.Args) == 1 {
+			return pe.lenOf(x.Call.Args[0])
+		}
+	}
+	return linOf(v, 0)
+}
+
+func (pe *pathEval) lenOf(v ssa.Value) lin {
+	if l, ok := pe.lens[v]; ok {
+		return l
+	}
+	if sl, ok := v.(*ssa.Slice); ok {
+		var hi lin
+		if sl.High != nil {
+			hi = linOf1(sl.High, pe)
+		} else if k, ok := arrayLen(sl.X.Type()); ok {
+			hi = linConst(k)
+		} else {
+			hi = pe.lenOf(sl.X)
+		}
+		if sl.Low != nil {
+			return hi.minus(linOf1(sl.Low, pe))
+		}
+		return hi
+	}
+	return lenOf(v, 0)
+}
+
+func evalPath(start, stop ssa.Instruction, st *pathState) *pathEval {
+	pe := &pathEval{ints: map[ssa.Value]lin{}, lens: map[ssa.Value]lin{}}
+	blocks := st.Blocks
+	// st.Blocks starts at the block of `start`
+	first := true
+	for _, b := range blocks {
+		from := 0
+		if first {
+			from = instrIndex(start) + 1
+			first = false
+		}
+		// phis of a block are evaluated simultaneously against the environment on entry
+		type upd struct {
+			v    ssa.Value
+			i, l *lin
+		}
+		var phiUpd []upd
+		i := from
+		for ; i < len(b.Instrs); i++ {
+			ph, ok := b.Instrs[i].(*ssa.Phi)
+			if !ok {
+				break
+			}
+			sel, has := st.PhiSel[ph]
+			if !has {
+				continue
+			}
+			u := upd{v: ph}
+			if isIntType(ph.Type()) {
+				l := linOf1(sel, pe)
+				u.i = &l
+			} else {
+				l := pe.lenOf(sel)
+				u.l = &l
+			}
+			phiUpd = append(phiUpd, u)
+		}
+		for _, u := range phiUpd {
+			if u.i != nil {
+				pe.ints[u.v] = *u.i
+			}
+			if u.l != nil {
+				pe.lens[u.v] = *u.l
+			}
+		}
+		for ; i < len(b.Instrs); i++ {
+			in := b.Instrs[i]
+			if in == stop {
+				return pe
+			}
+			v, ok := in.(ssa.Value)
+			if !ok {
+				continue
+			}
+			switch x := in.(type) {
+			case *ssa.BinOp:
+				if isIntType(x.Type()) {
+					switch x.Op {
+					case token.ADD, token.SUB, token.MUL:
+						pe.ints[v] = linOf1(v, &pathEval{ints: without(pe.ints, v), lens: pe.lens})
+						continue
+					}
+				}
+			case *ssa.Slice:
+				pe.lens[v] = (&pathEval{ints: pe.ints, lens: without(pe.lens, v)}).lenOf(v)
+				continue
+			case *ssa.Call:
+				if bi, ok := x.Call.Value.(*ssa.Builtin); ok && bi.Name() == "len" && len(x.Call.Args) == 1 {
+					pe.ints[v] = pe.lenOf(x.Call.Args[0])
+					continue
+				}
+			}
+			// recomputed and not understood: a fresh unknown
+			if isIntType(v.Type()) {
+				pe.ints[v] = linTerm(lterm{v: v, gen: 1})
+			} else {
+				pe.lens[v] = linTerm(lterm{v: v, isLen: true, gen: 1})
+			}
+		}
+	}
+	return pe
+}
+
+func without(m map[ssa.Value]lin, k ssa.Value) map[ssa.Value]lin {
+	if _, ok := m[k]; !ok {
+		return m
+	}
+	out := make(map[ssa.Value]lin, len(m))
+	for a, b := range m {
+		if a != k {
+			out[a] = b
+		}
+	}
+	return out
+}
+
+// provesNonNeg: do the constraints collected so far (without further term facts) already imply l >= 0?
+func (s *lsys) provesNonNeg(l lin) bool {
+	cons := append([]lin{}, s.cons...)
+	// len terms are non-negative
+	seen := map[lterm]bool{}
+	for _, c := range append(cons, l) {
+		for t := range c.co {
+			if t.isLen && !seen[t] {
+				seen[t] = true
+				cons = append(cons, linTerm(t).addScaled(linTerm(t), big.NewRat(-2, 1))) // -len <= 0
+			}
+		}
+	}
+	// refute l <= -1  <=>  l + 1 <= 0
+	cons = append(cons, l.plusConst(1))
+	return infeasible(cons)
 }
